@@ -341,4 +341,43 @@ def invB : Log → Bool
 /-- oids written by a transaction -/
 def Txn.oids (t : Txn) : List Nat := t.recs.map (·.oid)
 
+/-! ### the property's reading, per object (specification side; no pointers except `sameRev`) -/
+
+inductive Verdict where
+  | restore            -- the object gets back the state it had immediately before the undone transaction
+  | merge (m : Bytes)  -- a later change is kept: the resolver's output is stored
+  | refuse             -- UndoError
+deriving DecidableEq, Repr
+
+/-- the current revision of `oid` in the view `V` *is* the revision at `pos`, or is a pointer copy of it
+    (a back-pointer record designating it, as written by an earlier undo) -/
+def sameRev (V : List Rec) (oid : Nat) (pos : Nat) : Bool :=
+  lastPos oid V == pos ||
+    (match recAt V (lastPos oid V) with
+     | some c => c.pl == .back pos
+     | none => false)
+
+/-- `same` as above; `u` = state written by the undone transaction, `c` = current state, `p` = state
+    immediately before the undone transaction (`none` = the object does not exist) -/
+def specVerdict (resolve : Resolver) (oid : Nat) (same : Bool) (u c p : Option Bytes) : Verdict :=
+  if same then .restore
+  else
+    match u, c with
+    | some ud, some cd =>
+      if ud = cd then .restore                        -- later changes are equal in effect
+      else
+        match p with
+        | some pd =>
+          (match resolve oid ud cd pd with
+           | some m => .merge m                         -- mergeable later change
+           | none => .refuse)
+        | none => .refuse
+    | _, _ => .refuse
+
+/-- what `_transactionalUndoRecord` returns for a verdict on record `r` -/
+def verdictPayload (r : Rec) : Verdict → Option Payload
+  | .restore => some (.back r.prev)
+  | .merge m => some (if m = [] then .back 0 else .data m)
+  | .refuse => none
+
 end ZodbModel.Undo
